@@ -98,6 +98,22 @@ Theorem C15_file_partial : forall l ps, Forall (c15_code_neutral l) ps ->
 Proof. exact Proofs.C15.C15_file_exact. Qed.
 Print Assumptions C15_file_partial.
 
+(* ---- TypeScript, one item through the model's write_struct / write_enum / write_type_alias (any IR item,
+   any configuration, any printer state): the printed text consists of code parts and comment fragments
+   whose doc strings are exactly the IR's doc strings of the item (type, fields, variants, struct-variant
+   fields, alias) in source order - every one reproduced, nothing else derived from them - and the text is
+   contained iff all of them are safe_ts, provided the code parts keep the lexer in code mode (partial for
+   the same reason as above; the other five renderers are covered at fragment level only) ---- *)
+Theorem C15_ts_item_partial : forall (uc : unicode) (cfg : ts_config) it st text st',
+  ts_write_item uc cfg it st = Ok (text, st') ->
+  exists parts,
+    text = text_of (c15_file_pieces C15ts parts) /\
+    docs_of (c15_file_pieces C15ts parts) = c15_item_docs it /\
+    (Forall (c15_code_neutral C15ts) parts ->
+     c15_contained C15ts LCode (mark (c15_file_pieces C15ts parts)) = forallb safe_ts (c15_item_docs it)).
+Proof. exact Proofs.C15.C15_ts_item_partial. Qed.
+Print Assumptions C15_ts_item_partial.
+
 (* ---- the unrestricted statement is false of the faithful model: one witness per language.  A struct
    whose doc string is `alpha<LF>beta` (what `/** alpha<LF>beta */` arrives as), `alpha */ beta`,
    alpha, three double quotes, beta: the generator reproduces the doc string and part of it is read as code. ---- *)
